@@ -6,6 +6,7 @@
 mod codec;
 mod formatter;
 mod mutation;
+mod options;
 
 use serde_json::Value as J;
 use std::io::Write;
@@ -21,6 +22,7 @@ fn main() {
     let mut out = match a[1].as_str() {
         "x01" => mutation::run(&cfg),
         "x02" => formatter::run(&cfg),
+        "x05" => options::run(&cfg),
         other => {
             eprintln!("unknown command {}", other);
             std::process::exit(2);
